@@ -17,6 +17,9 @@ TENSOR_ATTRS = {'unsqueeze', 'squeeze', 'view', 'reshape', 'sum', 'mean', 'norm'
                 'matmul', 'tensor', 'Inv', 'Log', 'Exp', 'Act', 'matrix', 'rotation', 'translation', 'cumsum', 'cumprod', 'index_select',
                 'gather', 'masked_fill', 'any', 'all', 'item', 'tolist', 'numpy', 'cpu', 'cuda', 'new_zeros', 'new_ones', 'new_empty',
                 'movedim', 'roll', 'flip', 'unbind', 'chunk', 'split', 'copy_', 'add_', 'mul_', 'zero_', 'fill_', 'requires_grad_'}
+# torch functions whose positional arguments are sizes / scalars, not tensors
+SIZE_FUNCS = {'Size', 'device', 'dtype', 'eye', 'zeros', 'ones', 'empty', 'full', 'arange', 'rand', 'randn', 'randint', 'linspace', 'logspace', 'tensor',
+              'as_tensor', 'manual_seed', 'set_default_dtype', 'finfo', 'iinfo', 'randperm', 'tril_indices', 'triu_indices', 'scalar_tensor'}
 MUTATORS = {'append', 'add', 'update', 'setdefault', 'insert', 'extend', '__setitem__', 'appendleft', 'put'}
 CACHE_DECOS = {'lru_cache', 'cache', 'cached', 'memoize', 'memoized'}
 
@@ -41,7 +44,7 @@ def tensor_params(fnode):
             for x in (n.left, n.right):
                 if isinstance(x, ast.Name) and x.id in names:
                     out.add(x.id)
-        elif isinstance(n, ast.Call) and (dotted(n.func) or '').startswith('torch.') and (dotted(n.func) or '').split('.')[-1] not in ('Size', 'device', 'dtype'):
+        elif isinstance(n, ast.Call) and (dotted(n.func) or '').startswith('torch.') and (dotted(n.func) or '').split('.')[-1] not in SIZE_FUNCS:
             for x in n.args:
                 if isinstance(x, ast.Name) and x.id in names:
                     out.add(x.id)
@@ -94,10 +97,12 @@ def _targets(t):
         yield t
 
 
-def analyse_function(repo, f):
+def analyse_function(repo, f, tensor_self=None):
     """-> (stores, tainted): stores = [(node, label, value_exprs)] writes into storage that outlives the call"""
     fn = f.node
     a = fn.args
+    if tensor_self is None:
+        tensor_self = _tensor_self(repo, f) if hasattr(repo, 'mro') else False
     params = {p.arg for p in a.posonlyargs + a.args + a.kwonlyargs} | ({a.vararg.arg} if a.vararg else set()) | ({a.kwarg.arg} if a.kwarg else set())
     globs = set()
     local = set(params)
@@ -138,7 +143,10 @@ def analyse_function(repo, f):
         return None
 
     # data taint
-    tainted = set(tensor_params(fn))
+    tparams = set(tensor_params(fn))
+    if tensor_self and a.args:
+        tparams.add(a.args[0].arg)
+    tainted = set(tparams)
     assigns = []
     for n in _own_nodes(fn):
         if isinstance(n, (ast.Assign, ast.AnnAssign, ast.AugAssign)) and getattr(n, 'value', None) is not None:
@@ -172,6 +180,9 @@ def analyse_function(repo, f):
                             b = b.value
                         if isinstance(b, ast.Name):
                             lab = outliving(b.id)
+                            if lab is None and b.id in tparams and (isinstance(x, ast.Attribute) and x.value is b and x.attr not in ('data', 'grad', 'requires_grad')
+                                                                    or '__dict__' in src(x)):
+                                lab = 'an attribute of the tensor argument `%s`' % b.id
                             if lab:
                                 vals = [n.value] + ([x.slice] if isinstance(x, ast.Subscript) else [])
                                 stores.append((n, lab, vals))
@@ -220,6 +231,111 @@ def generator_publications(repo, f):
     return out
 
 
+ITER_MAKERS = {'cycle', 'iter', 'zip', 'map', 'filter', 'enumerate', 'reversed', 'chain', 'islice', 'repeat', 'count', 'accumulate', 'starmap',
+               'zip_longest', 'product', 'permutations', 'combinations'}
+
+
+def iterator_attributes(ci):
+    """(attribute, method that stores an iterator object in it, method that advances it, node)"""
+    made = {}
+    for m in ci.methods.values():
+        for n in _own_nodes(m.node):
+            if isinstance(n, ast.Assign):
+                v = n.value
+                is_it = isinstance(v, ast.GeneratorExp) or (isinstance(v, ast.Call) and (dotted(v.func) or '').split('.')[-1] in ITER_MAKERS
+                                                            and not ((dotted(v.func) or '').startswith('torch.')))
+                if is_it:
+                    for t in n.targets:
+                        d = dotted(t)
+                        if d and d.startswith('self.') and d.count('.') == 1:
+                            made[d[5:]] = m
+    out = []
+    if not made:
+        return out
+    for m in ci.methods.values():
+        for n in _own_nodes(m.node):
+            its = []
+            if isinstance(n, (ast.For, ast.comprehension)):
+                its.append(n.iter)
+            elif isinstance(n, ast.Call) and (dotted(n.func) or '').split('.')[-1] in ITER_MAKERS | {'next', 'list', 'tuple', 'sum', 'max', 'min', 'sorted'}:
+                its += list(n.args)
+            for it in its:
+                for x in ast.walk(it):
+                    d = dotted(x) if isinstance(x, ast.Attribute) else None
+                    if d and d.startswith('self.') and d[5:] in made and not (isinstance(n, ast.Call) and made[d[5:]] is m and
+                                                                                any(isinstance(t, ast.Attribute) for t in [])):
+                        out.append((d[5:], made[d[5:]], m, n if not isinstance(n, ast.comprehension) else it))
+    seen, uniq = set(), []
+    for a, s_, u, n in out:
+        if (a, u.qual) not in seen:
+            seen.add((a, u.qual))
+            uniq.append((a, s_, u, n))
+    return uniq
+
+
+IDENTITY_OK_FUNCS = {'__deepcopy__', '__reduce__', '__reduce_ex__', '__hash__', '__repr__', '__copy__'}
+
+
+def _tensor_self(repo, f):
+    """is `self` of this method itself a tensor (class derives, in the package, from torch.Tensor)?"""
+    if f.cls is None or f.is_static():
+        return False
+    try:
+        for c in repo.mro(f.cls):
+            bases = getattr(c, 'base_exprs', None)
+            if bases and any(b.split('.')[-1] in ('Tensor', 'Parameter') for b in bases):
+                return True
+            if isinstance(c, tuple) or isinstance(c, str):
+                if 'Tensor' in str(c):
+                    return True
+    except Exception:
+        return False
+    return False
+
+
+def identity_keys(repo, f):
+    """places where the IDENTITY (is / id() / data_ptr()) or the version counter of a tensor stands in for its contents"""
+    if f.name in IDENTITY_OK_FUNCS:
+        return []
+    fn = f.node
+    tp = tensor_params(fn)
+    if _tensor_self(repo, f) and f.pos_params:
+        tp = tp | {f.pos_params[0]}
+    _, tainted = analyse_function(repo, f)
+    tens = tp | tainted
+    out = []
+
+    def tensorish(e):
+        return bool({n.id for n in ast.walk(e) if isinstance(n, ast.Name)} & tens)
+
+    def stateish(e):
+        for n in ast.walk(e):
+            if isinstance(n, ast.Attribute) and isinstance(n.value, ast.Name) and n.value.id in ('self', 'cls'):
+                return True
+            if isinstance(n, ast.Name) and n.id not in tens:
+                r = repo.resolve_global(f.module.name, n.id)
+                if r is not None and r[0] == 'var':
+                    return True
+        return False
+    for n in _own_nodes(fn):
+        if isinstance(n, ast.Compare):
+            sides = [n.left] + list(n.comparators)
+            for op, a, b in zip(n.ops, sides, sides[1:]):
+                if isinstance(op, (ast.Is, ast.IsNot)):
+                    if any(isinstance(x, ast.Constant) for x in (a, b)):
+                        continue
+                    if (tensorish(a) and stateish(b)) or (tensorish(b) and stateish(a)):
+                        out.append((n, 'object identity (`%s`)' % src(n)[:50]))
+        elif isinstance(n, ast.Call):
+            if isinstance(n.func, ast.Attribute) and n.func.attr == 'data_ptr':       # defined on tensors (and storages) only
+                out.append((n, 'storage address (`%s`)' % src(n)[:50]))
+            elif isinstance(n.func, ast.Name) and n.func.id == 'id' and n.args and tensorish(n.args[0]):
+                out.append((n, 'object id (`%s`)' % src(n)[:50]))
+        elif isinstance(n, ast.Attribute) and n.attr == '_version' and isinstance(n.ctx, ast.Load):     # the autograd version counter
+            out.append((n, 'version counter (`%s`)' % src(n)[:50]))
+    return out
+
+
 @guarded
 def rule_memo(repo, rid, text, modules, floor=None, positive_fixture=True):
     res = RuleResult(rid, text, floor=floor if floor is not None else 1)
@@ -244,10 +360,20 @@ def rule_memo(repo, rid, text, modules, floor=None, positive_fixture=True):
                     res.add(Finding(rid, f, '`%s` keeps a value computed from the contents of the tensor argument (via %s) in %s, which outlives the call: '
                                     'a tensor has no value key (identity hash, in-place updates), so a later call can be answered from the earlier data'
                                     % (src(n)[:70], ', '.join(dep), lab), node=n, construct='store|%s|%s' % (lab, norm_construct(n, f.node))))
+            for n, what in identity_keys(repo, f):
+                res.add(Finding(rid, f, '%s uses the %s of a tensor as a stand-in for its contents: the contents change in place (copy_, +=, optimiser '
+                                'steps, .data) without the object, its address or - through .data - its version changing, and a result kept under that '
+                                'key is handed out for other data / another autograd state' % (f.qual, what), node=n,
+                                construct='identity-key|' + norm_construct(n, f.node)))
             for n, lab in generator_publications(repo, f):
                 res.add(Finding(rid, f, '`%s` fills %s step by step from inside a generator: a consumer that stops early (exception, break) leaves a '
                                 'truncated entry that every later call reads as complete' % (src(n)[:70], lab), node=n,
                                 construct='generator-publish|%s|%s' % (lab, norm_construct(n, f.node))))
+        for ci in mi.classes.values():
+            for attr, setter, user, node in iterator_attributes(ci):
+                res.add(Finding(rid, user, '`self.%s` holds a one-shot / endless iterator (set in %s) and %s advances it: every call continues where the '
+                                'previous one stopped instead of starting from the configured sequence' % (attr, setter.qual, user.qual), node=node,
+                                construct='iterator-attribute|' + attr))
     if n_fn == 0:
         raise AnalysisError('%s: no function analysed' % rid)
     if positive_fixture:
